@@ -101,6 +101,11 @@ def isReturn : Node → Bool
   | basic i _ => i.val == "Uret"
   | _ => false
 
+/-- `jalr x0, ...` to a register: control leaves to an address the graph does not know -/
+def isIndirectJump : Node → Bool
+  | jumpLinkR _ rd _ _ _ => rd.val == 0
+  | _ => false
+
 def isUreturn : Node → Bool
   | basic i _ => i.val == "Uret"
   | _ => false
